@@ -30,6 +30,9 @@ def cases(rng, tier):
                 cs.append({"kind": "matrix", "n": n, "e": ("dgr", g)})
                 cs.append({"kind": "matrix", "n": n, "e": ("mul", g, ("dgr", g))})
                 cs.append({"kind": "matrix", "n": n, "e": ("mul", ("dgr", g), g)})
+                # the dagger of a dagger, and a daggered gate followed by its own dagger
+                cs.append({"kind": "matrix", "n": n, "e": ("dgr", ("dgr", g))})
+                cs.append({"kind": "matrix", "n": n, "e": ("mul", ("dgr", g), ("dgr", ("dgr", g)))})
                 free = [c for c in range(1, 1 << n) if not c & m]
                 if free:
                     c = rng.choice(free)
